@@ -156,6 +156,9 @@ def check(run):
                     if not x.endswith(' 1'): bad.append('substituting symbol %s by itself is not the identity' % x.split()[0])
                 for x in d.get('clone_rename_self', []):
                     if not x.endswith(' 1'): bad.append('clone_deeper(s, s) with s = %s is not equal to the original' % x.split()[0])
+                for x in d.get('clone_rename_shared', []):
+                    if not x.endswith(' 0'): bad.append('clone_deeper(from, to) with %s shares %s node(s) with the original' % tuple(x.split()[:2]))
+                if d.get('clone_frame_shared', ['0']) != ['0']: bad.append('clone_deeper(frame) / clone_deeper(frame, frame) share nodes with the original')
                 for x in d.get('clone_rename_subst', []):
                     if not x.endswith(' 1'): bad.append('clone_deeper(%s, %s) differs from substituting the identifier' % tuple(x.split()[:2]))
                 if d.get('clone_frame', ['1']) != ['1']: bad.append('clone_deeper(frame) over the frame that declares every symbol is not equal to the original')
